@@ -88,7 +88,7 @@ Section Method.
     (forall i, (i < m_np s)%nat -> fst (wstep W vs s o) i = fst vs i) /\
     (forall i, (i < m_ne s)%nat -> snd (wstep W vs s o) i = snd vs i).
   Proof.
-    destruct o as [|f p]; cbn [wstep fst snd]; split; intros i Hi; try reflexivity;
+    destruct o as [|f p|f]; cbn [wstep fst snd]; split; intros i Hi; try reflexivity;
       apply upd_other; lia.
   Qed.
 
@@ -105,7 +105,7 @@ Section Method.
   Proof. destruct o; cbn; lia. Qed.
 
   Lemma Inv_step s vs o :
-    Inv s vs -> (match o with MFresh => true | MEval _ p => keys_below (m_np s) p end) = true ->
+    Inv s vs -> (match o with MEval _ p => keys_below (m_np s) p | _ => true end) = true ->
     Inv (mstep s o) (wstep W vs s o).
   Proof.
     intros HI Hwf f t Hin.
@@ -117,7 +117,7 @@ Section Method.
     { intros f0 t0 Hin0. destruct (HI f0 t0 Hin0) as [Hb Hg]. split.
       - exact (sample_below_mono _ _ _ _ t0 Hc1 Hc2 Hb).
       - rewrite (sample_at_agree (fst vs) _ (snd vs) _ _ _ t0 Hb Hr Hp). exact Hg. }
-    destruct o as [|g p]; cbn [mstep m_samples] in Hin.
+    destruct o as [|g p|g]; cbn [mstep m_samples] in Hin.
     - apply Hold, Hin.
     - apply in_app_or in Hin as [Hin|[Heq|[]]]; [apply Hold, Hin|].
       injection Heq as <- <-. split.
@@ -133,6 +133,17 @@ Section Method.
         set (x := evalP (fst vs) p).
         replace (1 * snd (orc W g x) + 0) with (snd (orc W g x)) by lra.
         apply (Gen_veq W g x (fst (orc W g x))); [apply orc_genuine|].
+        intros w. rewrite inner_add_l, inner_scal_l, inner_zero_l. lra.
+    - apply in_app_or in Hin as [Hin|[Heq|[]]]; [apply Hold, Hin|].
+      injection Heq as <- <-. split.
+      + assert (H1 : Nat.ltb (m_np s) (S (m_np s)) = true) by (apply Nat.ltb_lt; lia).
+        assert (H2 : Nat.ltb (m_ne s) (S (m_ne s)) = true) by (apply Nat.ltb_lt; lia).
+        unfold sample_below. cbn [mstep m_np m_ne].
+        unfold keys_below, ekeys_below. cbn [forallb ekey_below]. rewrite H1, H2. reflexivity.
+      + cbn [sample_at wstep fst snd evalP evalE evalK].
+        rewrite !upd_same, Q2R_one.
+        replace (1 * snd (stat W g) + 0) with (snd (stat W g)) by lra.
+        apply (Gen_xveq W g (fst (stat W g))); [apply stat_genuine|].
         intros w. rewrite inner_add_l, inner_scal_l, inner_zero_l. lra.
   Qed.
 
